@@ -144,6 +144,28 @@ theorem no_deadlock (h : Reachable n prog s) (t : Tid) (hd : ¬ isDone s t) :
 theorem nesting (h : Reachable n prog s) (p c : Tid) (hw : s.wait p = some c) : p < c ∧ c < s.next :=
   (reachable_inv h).2.wait_lt p c hw
 
+/-- **(6, obstruction-free form) Bounded return.** From any reachable state, a sender that is left
+undisturbed has returned from ALL its calls after at most `soloFuel s t` of its own lines
+(`9·|queue| + 25·|calls still to start| +` at most 14 for the call it is in); every single line
+strictly decreases that bound.  (Under interference no bound in terms of the thread's own program exists:
+other threads can keep the queue non-empty; each wasted iteration is then paid for by another thread's pop.) -/
+theorem returns_when_undisturbed (h : Reachable n prog s) (t : Tid) :
+    isDone (runSolo s t (soloFuel s t)) t
+    ∧ (¬ isDone s t → ∃ s', step s t = some s' ∧ soloFuel s' t < soloFuel s t) :=
+  ⟨solo_returns_aux t _ s (reachable_inv h).1 (Nat.le_refl _), fun hd => solo_step (reachable_inv h).1 hd⟩
+
+/-- **(6b)** a nested (re-entrant) send, which runs while its parent stands still, returns within
+`9·|queue| + 25` lines; so the parent is suspended only for a bounded time and the discipline of (5)
+never leaves it waiting for ever -/
+theorem nested_send_returns (h : Reachable n prog s) (p : Tid) (m : Msg) :
+    soloFuel (reenter s p m) s.next = 9 * s.queue.length + 25
+    ∧ (Reachable n prog (reenter s p m) →
+        isDone (runSolo (reenter s p m) s.next (9 * s.queue.length + 25)) s.next) := by
+  have hf := soloFuel_reenter (reachable_inv h).2 p m
+  refine ⟨hf, fun h' => ?_⟩
+  rw [← hf]
+  exact (returns_when_undisturbed h' s.next).1
+
 /-! ### non-vacuity: concrete reachable states -/
 
 /-- thread 0 sends a three-write message then a small one, thread 1 sends one small message -/
